@@ -51,7 +51,8 @@ def gen_spelling(rng, scratch_depth_hint=2):
     style = rng.choice(["dotdot", "dotdot", "dotdot_deep", "absolute",
                         "absolute", "inside_odd", "dotdot_then_in",
                         "sibling_prefix", "absolute_norm",
-                        "absolute_double_slash", "absolute_sibling_prefix"])
+                        "absolute_double_slash", "absolute_sibling_prefix",
+                        "backslash_dotdot", "backslash_absolute"])
     comps = ["a", "b", "x y", "déjà", "train", "."]
     if style == "dotdot":
         parts = [".."] * rng.randrange(1, 4) + [rng.choice(["decoy", "outer"])]
@@ -66,6 +67,12 @@ def gen_spelling(rng, scratch_depth_hint=2):
         parts = [rng.choice(comps), "", rng.choice(comps), ".", "q"]
     elif style == "sibling_prefix":
         parts = ["..", "root_evil", "x"]
+    elif style == "backslash_dotdot":
+        # a path as a Windows writer would spell it: harmless single POSIX
+        # component unless somebody converts the separators
+        parts = ["BSL", "..", "..", "decoy", rng.choice(["x", "deep"])]
+    elif style == "backslash_absolute":
+        parts = ["BSLABS", rng.choice(["decoy", "outer_abs"])]
     elif style == "absolute_sibling_prefix":
         # an absolute path into a sibling whose name extends the root's name
         parts = ["ABSROOT_evil", rng.choice(["x", "deep"])]
@@ -84,6 +91,11 @@ def render(sp, scratch, base_dir):
     """The string stored in the field (ABS -> an absolute prefix inside the
     scratch area but outside the root)."""
     parts = list(sp["parts"])
+    if parts and parts[0] == "BSL":
+        return "\\".join(parts[1:])
+    if parts and parts[0] == "BSLABS":
+        return "\\" + (os.path.join(scratch, "abs_area") + "/" + "/".join(
+            parts[1:])).replace("/", "\\").lstrip("\\")
     if parts and parts[0] == "ABSROOT_evil":
         return base_dir + "_evil/" + sp["sep"].join(parts[1:])
     if parts and parts[0] in ("ABS", "ABS2"):
@@ -190,6 +202,9 @@ def run_case(case):
                 if resolved_outside:
                     plant(resolved, a_list)
                     make_walkable(stored, root)
+                if "\\" in stored:
+                    plant(os.path.normpath(os.path.join(
+                        root, stored.replace("\\", "/"))), a_list)
                 info["splits"][split]["shard_list_info_file"][
                     "file_path"] = stored
                 with open(os.path.join(root, "dataset_info.json"), "w",
@@ -230,6 +245,9 @@ def run_case(case):
                 if resolved_outside and field != "relative_path_self":
                     plant(resolved, src)
                     make_walkable(stored, root)
+                if "\\" in stored and field != "relative_path_self":
+                    plant(os.path.normpath(os.path.join(
+                        root, stored.replace("\\", "/"))), src)
                 with open(os.path.join(root, rel), "w", encoding="utf-8") as f:
                     json.dump(doc, f)
                 target_doc = rel
